@@ -208,7 +208,12 @@ func c14JSONBodies(rng *rand.Rand, g *jgen, body *JS) []string {
 				doc = g.genDoc(body, or)
 				d := doc.(map[string]interface{})
 				txt := marshalDoc(d, rng)
-				out = append(out, txt)
+				// (weighted: valid documents — with their optional properties — and the empty object are what tells a generated
+				//  decoder from encoding/json's default one)
+				for w := 0; w < 8; w++ {
+					out = append(out, marshalDoc(d, rng))
+				}
+				out = append(out, "{}", "{}", "{}")
 				// mutants: every value replaced by a value of another JSON type, keys dropped, nulls
 				for key := range d {
 					for _, repl := range []interface{}{nil, "str", 1.5, true, []interface{}{}, map[string]interface{}{}, []interface{}{nil}, map[string]interface{}{"x": nil}} {
